@@ -229,6 +229,82 @@ def corr(rep: C.Report, tier: str):
     rep.obligation("correspondence Model.Tracer.tracePhase = real FreeEnergy.tracePhase on logged step records (table, range, flags)",
                    "correspondence", not bad, f"{len(lines)} traces; {bad[:1]}")
     rep.extra["tracer_disagreements"] = bad[:2]
+    # the coarse scan of findCriticalTemperature: the REAL method on stub phases (dyadic numbers, scripted sign pattern of F_low - F_high), the
+    # bracket handed to the root finder against Model.Tracer.criticalBracket fed with the evaluations the real loop made
+    from types import SimpleNamespace
+    import WallGo.thermodynamics as TH
+    from WallGo.exceptions import WallGoError
+    lines, expect = [], []
+    for _ in range(150 if tier == "quick" else 2000):
+        dT_ = Fraction(r.choice((1, 2, 4)), 8)
+        TMin_ = Fraction(r.randint(8, 40), 8)
+        n_ = r.randint(1, 14)
+        TMax_ = TMin_ + n_ * dT_ + r.choice((Fraction(0), dT_ / 2, dT_ / 4))
+        style = r.choice(("one-crossing", "one-crossing", "two-crossings", "none", "zeros"))
+        k1 = r.randint(0, n_)
+        k2 = r.randint(0, n_)
+        s0 = r.choice((1.0, -1.0))
+
+        def dF(T, TMax_=TMax_, dT_=dT_, k1=k1, k2=k2, s0=s0, style=style):
+            k = (Fraction(TMax_) - Fraction(T)) / dT_            # number of steps below TMax
+            if style == "none":
+                return s0
+            if style == "zeros" and k == k1:
+                return 0.0
+            flips = (k > k1) + ((k > k2) if style == "two-crossings" else 0)
+            return s0 * (-1.0) ** flips
+        seen = []
+        th = TH.Thermodynamics.__new__(TH.Thermodynamics)
+
+        def mk(sign):
+            def call(T):
+                v = dF(T)
+                seen.append((Fraction(float(T)), v))
+                return SimpleNamespace(veffValue=np.array(v if sign > 0 else 0.0))
+            ns = SimpleNamespace(hasInterpolation=lambda: True)
+            return call, ns
+        lowcall, _ = mk(1)
+
+        class Stub:
+            def __init__(self, f):
+                self.f = f
+
+            def hasInterpolation(self):
+                return True
+
+            def __call__(self, T):
+                return self.f(T)
+        th.freeEnergyLow = Stub(lowcall)
+        th.freeEnergyHigh = Stub(lambda T: SimpleNamespace(veffValue=np.array(0.0)))
+        th._getCoexistenceRange = lambda TMin_=TMin_, TMax_=TMax_: (float(TMin_), float(TMax_))
+        got = {}
+        saved = TH.scipy.optimize.root_scalar
+
+        def root_scalar(f, bracket=None, **kw):
+            got["bracket"] = (Fraction(float(bracket[0])), Fraction(float(bracket[1])))
+            return SimpleNamespace(converged=True, root=0.5 * (bracket[0] + bracket[1]))
+        TH.scipy.optimize.root_scalar = root_scalar
+        try:
+            TH.Thermodynamics.findCriticalTemperature(th, float(dT_), 1e-6)
+            e = f"{fr(got['bracket'][0])} {fr(got['bracket'][1])}"
+        except WallGoError:
+            e = "none"
+        except Exception as ex:  # noqa: BLE001
+            e = f"raised {type(ex).__name__}"
+        finally:
+            TH.scipy.optimize.root_scalar = saved
+        tab = {}
+        for T, v in seen:
+            tab.setdefault(T, int(np.sign(v)))
+        lines.append(f"bracket {fr(TMin_)} {fr(TMax_)} {fr(dT_)} " + " ".join(f"{fr(T)}:{sg}" for T, sg in tab.items()))
+        expect.append(e)
+        rep.case(key=("Tc-bracket", style, e == "none"))
+        rep.count(f"critical-temperature scan {style}")
+    outs = C.lean_run("TracerQ", lines)
+    bad = [{"real": e, "model": o_, "line": ln[:200]} for ln, e, o_ in zip(lines, expect, outs) if e != o_.strip()]
+    rep.obligation("correspondence Model.Tracer.criticalBracket = real Thermodynamics.findCriticalTemperature coarse scan (bracket handed to the root finder)",
+                   "correspondence", not bad and len(outs) == len(lines), f"{len(lines)} scans; {str(bad[:1])[:300]}")
+    rep.extra["critical_bracket_disagreements"] = bad[:2]
 
 
 def _same(a, b):
@@ -449,6 +525,44 @@ def search(rep: C.Report, tier: str, broken):
                               "disappears inside the requested range", info, finding_key="C11:flag-missing:retrace")
             if (spin_hi is not None and Tst.max() > spin_hi * (1 + 1e-5)) or (spin_lo is not None and Tst.min() < spin_lo * (1 - 1e-5)):
                 rep.violation("after a second trace the table extends beyond a spinodal", info, finding_key="C11:beyond-spinodal")
+    # two crossings inside the coexistence range (the low-T phase is favoured only between them; high-T favoured at the top of the range, so
+    # the direction is the documented one): the critical temperature is the crossing BELOW which the low-T phase is favoured, i.e. the upper one
+    from types import SimpleNamespace
+    import WallGo.thermodynamics as TH
+
+    class _Phase:
+        def __init__(self, f):
+            self.f = f
+
+        def hasInterpolation(self):
+            return True
+
+        def __call__(self, T):
+            return SimpleNamespace(veffValue=np.array(self.f(T)))
+    for Tlo, Thi, rng_ in ((80.0, 110.0, (60.0, 130.0)), (0.81, 0.93, (0.7, 1.0))) if tier == "quick" else \
+            ((80.0, 110.0, (60.0, 130.0)), (0.81, 0.93, (0.7, 1.0)), (95.0, 96.5, (90.0, 100.0)), (3e3, 4.4e3, (2e3, 5e3))):
+        th = TH.Thermodynamics.__new__(TH.Thermodynamics)
+        scale = Thi ** 2
+        th.freeEnergyHigh = _Phase(lambda T: -3.0 * T ** 4)
+        th.freeEnergyLow = _Phase(lambda T, Tlo=Tlo, Thi=Thi, scale=scale: -3.0 * T ** 4 + 0.01 * scale * (T - Tlo) * (T - Thi))
+        th._getCoexistenceRange = lambda rng_=rng_: rng_
+        dT_ = (rng_[1] - rng_[0]) / 57.3
+        rep.case(key=("Tc-two-crossings", Tlo, Thi))
+        rep.count("two crossings in the coexistence range")
+        try:
+            Tc = TH.Thermodynamics.findCriticalTemperature(th, dT_, 1e-8)
+        except Exception as ex:  # noqa: BLE001
+            rep.count("two-crossing findCriticalTemperature raised " + type(ex).__name__)
+            continue
+        dlt = 0.05 * (Thi - Tlo)
+        below = float(th.freeEnergyLow(Tc - dlt).veffValue - th.freeEnergyHigh(Tc - dlt).veffValue)
+        if abs(Tc - Thi) > 1e-6 * Thi or not below < 0:
+            rep.violation("with two crossings in the coexistence range (high-T phase favoured at its top) the returned critical temperature is not the "
+                          "crossing below which the low-temperature phase is favoured",
+                          {"crossings": [Tlo, Thi], "coexistence_range": list(rng_), "dT": dT_, "Tc_returned": float(Tc),
+                           "F_low_minus_F_high_just_below_Tc": below,
+                           "how": "Thermodynamics.findCriticalTemperature on stub phases F_high = -3T^4, F_low = F_high + c (T-Tlo)(T-Thi)"},
+                          finding_key="C11:Tc-two-crossings")
     # direction: swap the roles of the phases (the labelled low-T phase is favoured ABOVE the crossing)
     th, model, info = models.make_thermo("toy1", {}, TnFrac=0.6, tminFrac=0.8, tmaxFrac=1.12, key="swapped-for-C11")
     th.freeEnergyHigh, th.freeEnergyLow = th.freeEnergyLow, th.freeEnergyHigh
